@@ -279,9 +279,23 @@ func buildOverlay(g *Group, native bool) (map[string][]byte, []string, error) {
 		}
 		ov[filepath.Join(base, "zz_verif_"+filepath.Base(f))] = b
 	}
+	// development aid (never set by the registered commands): modified copies
+	// of repository files, see below
+	extra := map[string]string{}
+	for _, kv := range strings.Split(os.Getenv("VERIF_EXTRA_OVERLAY"), ",") {
+		if p := strings.SplitN(kv, "=", 2); len(p) == 2 {
+			extra[p[0]] = p[1]
+		}
+	}
 	for _, sc := range g.Scales {
 		p := filepath.Join(repoDir, sc[0])
-		b, err := os.ReadFile(p)
+		src := p
+		if x, ok := extra[p]; ok {
+			src = x // scale the modified copy
+			scaled = append(scaled, "DEVELOPMENT OVERLAY (not /repo's file): "+p)
+			delete(extra, p)
+		}
+		b, err := os.ReadFile(src)
 		if err != nil {
 			return nil, nil, fmt.Errorf("scale: %v", err)
 		}
@@ -297,18 +311,16 @@ func buildOverlay(g *Group, native bool) (map[string][]byte, []string, error) {
 	}
 	// development aid (never set by the registered commands): run the checks
 	// against modified copies of repository files without touching /repo
-	for _, kv := range strings.Split(os.Getenv("VERIF_EXTRA_OVERLAY"), ",") {
-		if p := strings.SplitN(kv, "=", 2); len(p) == 2 {
-			b, err := os.ReadFile(p[1])
-			if err != nil {
-				return nil, nil, err
-			}
-			if _, dup := ov[p[0]]; dup {
-				return nil, nil, fmt.Errorf("extra overlay collides with a scaled file: %s", p[0])
-			}
-			ov[p[0]] = b
-			scaled = append(scaled, "DEVELOPMENT OVERLAY (not /repo's file): "+p[0])
+	for dst, src := range extra {
+		b, err := os.ReadFile(src)
+		if err != nil {
+			return nil, nil, err
 		}
+		if _, dup := ov[dst]; dup {
+			return nil, nil, fmt.Errorf("extra overlay collides with a generated file: %s", dst)
+		}
+		ov[dst] = b
+		scaled = append(scaled, "DEVELOPMENT OVERLAY (not /repo's file): "+dst)
 	}
 	return ov, scaled, nil
 }
